@@ -556,12 +556,21 @@ fn spec(case: &Case, ok: bool, pre: &BTreeMap<String, Node>, post: &BTreeMap<Str
             "ancillary-tmp-left"
         } else if let Some(rest) = rel.as_ref().and_then(|r| r.strip_prefix("immutable/")) {
             let first = rest.split('/').next().unwrap();
-            let upper = if case.include_ancillary { case.last + 1 } else { case.last };
-            let expected_name = is_trio_name(first).map(|n| n <= upper).unwrap_or(false)
+            // (since 3360edee4 the clean-up expects the trios of the REQUESTED range, +1 with the ancillary files)
+            let (lower, upper) = match bounds { Some((lo, hi)) => (lo, if case.include_ancillary { hi + 1 } else { hi }), None => (1, 0) };
+            let expected_name = is_trio_name(first).map(|n| lower <= n && n <= upper).unwrap_or(false)
                 || pre.contains_key(&format!("db/immutable/{}", first));
             if !expected_name {
                 "cleanup-missed"
             } else if rest.contains('/') || !matches!(node, Node::File(_)) {
+                "immutable-entry-kept-by-name"
+            } else if case.include_ancillary && bounds.map(|(_, hi)| is_trio_name(first) == Some(hi + 1)).unwrap_or(false) {
+                // the one trio the clean-up still expects beyond the requested range: the next one, which the
+                // ANCILLARY archive legitimately carries — here it came from somewhere else and nothing vouches for it
+                "next-trio-not-from-ancillary"
+            } else if is_trio_name(first).map(|n| n < lower || n > upper).unwrap_or(false) {
+                // a name outside the requested range that was there BEFORE the call (that is why it is expected): an
+                // archive replaced what it held — kept by its name only
                 "immutable-entry-kept-by-name"
             } else if is_trio_name(first).is_some() {
                 "trio-outside-range"
@@ -1095,19 +1104,32 @@ fn main() {
         let rep = o.post.contains_key("db/ledger/123456") && o.post.contains_key("db/volatile/blocks-0.dat");
         sink.witness("C19-foreign-entry", rep, &format!("immutable archive 2 also carries ledger/123456 and volatile/blocks-0.dat, Range(1,3), no ancillary: {} and both files are in the target", if o.ok { "Ok" } else { "Err" }));
     }
-    // (3) KNOWN: trio numbers outside the requested range
+    // (3) FIXED (3360edee4), witness kept: trio numbers outside the requested range
     let mut c3 = mk(imm3(vec![file("immutable/00000.chunk", b"OLD"), file("immutable/00003.primary", b"NEXT")]), vec![], R::Range(1, 2), false);
     c3.imm.remove(&3);
     if let Some(o) = emit(&ctx, &mut sink, "corpus.range", &c3) {
         let rep = o.post.contains_key("db/immutable/00000.chunk") && o.post.contains_key("db/immutable/00003.primary");
         sink.witness("C19-trio-outside-range", rep, &format!("Range(1,2) of a database ending at 3, immutable archive 2 also carries immutable/00000.chunk and immutable/00003.primary: {} and both are in the target", if o.ok { "Ok" } else { "Err" }));
     }
-    // (4) KNOWN: entries of `immutable/` are kept by name only
-    let mut c4 = mk(imm3(vec![file("immutable/00000.primary/evil.bin", b"NESTED"), symlink("immutable/00000.chunk", "../../out/x")]), vec![], R::Range(1, 2), false);
+    // (3b) KNOWN (what is left of it): with the ancillary files the clean-up expects the NEXT trio too, wherever it came from
+    {
+        let anc = Loc { present: true, intact: true, entries: vec![file("ledger/1", b"L"), file("ancillary_manifest.json", b"{}")] };
+        let c3b = mk(imm3(vec![]), vec![anc], R::Range(1, 3), true);
+        let mut c3b = c3b;
+        c3b.imm.get_mut(&3).unwrap()[0].entries.push(file("immutable/00004.chunk", b"NEXT"));
+        if let Some(o) = emit(&ctx, &mut sink, "corpus.nexttrio", &c3b) {
+            let rep = o.post.contains_key("db/immutable/00004.chunk");
+            sink.witness("C19-next-trio-not-from-ancillary", rep, &format!("Range(1,3) of a database ending at 3 with the ancillary files (whose verification fails here), immutable archive 3 also carries immutable/00004.chunk: {}, immutable/00004.chunk in the target afterwards: {}", if o.ok { "Ok" } else { "Err" }, rep));
+        }
+    }
+    // (4) KNOWN: entries of `immutable/` are kept by name only (names of the requested range: since 3360edee4 every
+    //     other name is removed)
+    let mut c4 = mk(imm3(vec![]), vec![], R::Range(1, 2), false);
     c4.imm.remove(&3);
+    c4.imm.insert(1, vec![Loc { present: true, intact: true, entries: vec![file("immutable/00001.secondary", b"chunk 1"), file("immutable/00001.primary/evil.bin", b"NESTED"), symlink("immutable/00001.chunk", "../../out/x")] }]);
     if let Some(o) = emit(&ctx, &mut sink, "corpus.byname", &c4) {
-        let rep = o.post.contains_key("db/immutable/00000.primary/evil.bin") && matches!(o.post.get("db/immutable/00000.chunk"), Some(Node::Link(_)));
-        sink.witness("C19-immutable-entry-kept-by-name", rep, &format!("immutable archive 2 also carries immutable/00000.primary/evil.bin and a symbolic link immutable/00000.chunk: {} and both are in the target", if o.ok { "Ok" } else { "Err" }));
+        let rep = o.post.contains_key("db/immutable/00001.primary/evil.bin") && matches!(o.post.get("db/immutable/00001.chunk"), Some(Node::Link(_)));
+        sink.witness("C19-immutable-entry-kept-by-name", rep, &format!("immutable archive 1 carries immutable/00001.primary/evil.bin and a symbolic link immutable/00001.chunk instead of the two files: {} and both are in the target", if o.ok { "Ok" } else { "Err" }));
     }
 
     // ---------------- generated ----------------
